@@ -79,14 +79,24 @@ def build(M: int, lens: tuple, opening: bool, pickup: int, final: bool, kern_spi
     if final:
         lines.append(Line('bar', ['=='] * ncol, n_bar=0))
     lines.append(Line('term', ['*-'] * ncol))
-    # blanks: 1 = an empty line after the header block, 2 = an empty line in front of every barline, 3 = both
+    # blanks (bit set): 1 = an empty line after the header block, 2 = an empty line in front of every barline,
+    # 4 = a global comment line in front of every barline and after the first data line (global comments are stored in the tree
+    # but never exported: stages and exported rows drift apart), 8 = a reference record '!!!OTL: x' after the signature rows
     out = []
+    seen_data = False
     for i, ln in enumerate(lines):
         if (blanks & 2) and ln.kind == 'bar':
             out.append('')
+        if (blanks & 4) and ln.kind == 'bar':
+            out.append('!! remark %d' % i)
         out.append('\t'.join(ln.cells))
+        if (blanks & 4) and ln.kind == 'data' and not seen_data:
+            out.append('!! after the first data line')
+        seen_data = seen_data or ln.kind == 'data'
         if (blanks & 1) and i == len(sigs):
             out.append('')
+        if (blanks & 8) and i == len(sigs):
+            out.append('!!!OTL: x')
     text = '\n'.join(out) + '\n'
     return Score(text, lines, headers, sigs)
 
